@@ -268,7 +268,15 @@ def _run(case, res, path, idx_path):
                 cmp(f"f[{a}]", outcome(lambda: obj[a]), outcome(lambda: ref[a]))
             elif op == "get":
                 i = a % (2 * n + 4) - (n + 2)
-                cmp(f"f[{i}]", outcome(lambda: obj[i]), outcome(lambda: ref[i]))
+                g = outcome(lambda: obj[i])
+                cmp(f"f[{i}]", g, outcome(lambda: ref[i]))
+                if g[0] == "ok" and "Record" in case["variant"] and b % 3 == 0 and hasattr(g[1], "s"):
+                    # the caller changes the record object it was given (without writing anything back): the file, and what later
+                    # reads of it return, are what they were
+                    g[1].s = g[1].s + "#changed-by-the-caller"
+                    res.count("records_changed_by_the_caller_after_reading")
+                    cmp(f"f[{i}] again, after the caller changed the record object returned by the first f[{i}]", outcome(lambda: obj[i]),
+                        outcome(lambda: ref[i]))
                 reads_since_it = True
             elif op == "slice":
                 vals = [None, 0, 1, 2, -1, -2, n, n + 2, -n - 1, n // 2, 3]
@@ -335,6 +343,20 @@ def _run(case, res, path, idx_path):
                 cmp(f"rest of the iterator from #{pos1}", outcome(lambda: list(it1)), ("ok", ref[pos1:]), iter=True,
                     interleaved=True)
                 it1 = None
+            elif op == "reopen" and a % 3 == 1:
+                # a shallow copy of the opened object (it shares the handle), the original is dropped and collected; the history goes
+                # on through the copy
+                import copy
+                import gc
+                it1 = it2 = None
+                o2 = copy.copy(obj)
+                obj = o2
+                o2 = None
+                gc.collect()
+                res.count("shallow_copies_with_the_original_dropped")
+                if n:
+                    cmp(f"f[{b % n}] through a copy.copy of the opened object (the original dropped and collected)", outcome(lambda: obj[b % n]),
+                        ("ok", ref[b % n]))
             elif op == "reopen":
                 obj.close()
                 g = outcome(lambda: obj[0])
